@@ -352,11 +352,16 @@ pub fn oracle(sc: &Scenario) -> CaseResult {
                 }
                 info.lab("timing:slow-resolution(inconclusive)");
             }
-            if longest >= 1_000 && r_ms + 300 > longest.max(b_ms) && b_ms < 500 {
+            // in-flight work: async handlers mid-flight and the handler that blocks a worker's thread
+            let work = longest.max(b_ms);
+            if work >= 1_000 && r_ms + 300 > work {
                 return Err(Fail::new(
                     "forced:waited-for-in-flight-work",
-                    format!("Forced shutdown resolved after {r_ms} ms, i.e. it waited for a {longest} ms handler\n{sc:?}"),
+                    format!("Forced shutdown resolved after {r_ms} ms, i.e. it waited for a {work} ms handler\n{sc:?}"),
                 ));
+            }
+            if b_ms >= 1_000 {
+                info.lab("forced:while-a-worker-thread-is-blocked");
             }
             info.lab("forced:resolved");
         }
@@ -461,8 +466,9 @@ pub fn scenario_strategy() -> impl Strategy<Value = Scenario> {
         prop::bool::weighted(0.3),
     )
         .prop_map(|(workers, mode, blocker_ms, queued, mid_handler_ms, idle_keepalive, connect_during, second_shutdown)| {
-            // a Forced shutdown combined with a blocked worker says nothing about the property
-            let blocker_ms = if mode == Mode::Forced { None } else { blocker_ms };
+            // a Forced shutdown resolves promptly "regardless of in-flight work": a handler that keeps a worker's
+            // thread busy for 1.5 s is in-flight work too (short blockers say nothing in this mode)
+            let blocker_ms = if mode == Mode::Forced { blocker_ms.map(|b| if b == 400 { 1500 } else { 0 }).filter(|b| *b > 0) } else { blocker_ms };
             Scenario { workers, mode, blocker_ms, queued, mid_handler_ms, idle_keepalive, connect_during, second_shutdown }
         })
 }
